@@ -54,7 +54,7 @@ structure View where
   nTemplates : Nat            -- model.sparse_templates.data.shape[0]
   channelMap : List Nat       -- model.channel_mapping
   channelProbes : List Nat    -- model.channel_probes
-  features : Bool             -- model.sparse_features is not None
+  featRows : Option Nat       -- model.sparse_features.data.shape[0] (`none`: model.sparse_features is None)
 deriving Repr
 
 /-- `model.n_clusters` = rows of `model.sparse_clusters` (model.py:418-428, the rule of C08's
@@ -120,12 +120,20 @@ def spikeAmps (v : View) : List Row :=
 from `out/clusters.channels.npy` (alf.py:224-229) -/
 def clustersDepths (cc : Entry) : List Row := cc.rows.zipIdx.map fun p => Row.tok "clusters.depths" p.2
 
-/-- alf.py:232-235: `clusters_depths[spike_clusters]` without features (IndexError for an id beyond the
-table: not in the domain, every id is below `n_clusters`), `model.get_depths()` (one entry per spike,
-`zeros_like(spike_times)`, model.py:1101) with features. -/
+/-- `model.get_depths()` (model.py:1098-1122): `None` without features AND when the feature store holds a row for a
+subset of the spikes only (`data.shape[0] != n_spikes`, the `pc_feature_spike_ids.npy` layout); otherwise one entry per
+spike (`zeros_like(spike_times)`). -/
+def getDepthsRows (v : View) : Option (List Row) :=
+  match v.featRows with
+  | none => none
+  | some n => if n = v.times.length then some (tokRows "get_depths" v.times.length) else none
+
+/-- alf.py:233-239: `model.get_depths()` when it gives depths, otherwise `clusters_depths[spike_clusters]`
+(IndexError for an id beyond the table: not in the domain, every id is below `n_clusters`). -/
 def spikesDepths (v : View) (cd : List Row) : List Row :=
-  if v.features then tokRows "get_depths" v.times.length
-  else v.spikeClusters.map fun c => cd.getD c (Row.tok "nan" 0)
+  match getDepthsRows v with
+  | some d => d
+  | none => v.spikeClusters.map fun c => cd.getD c (Row.tok "nan" 0)
 
 structure Cfg where
   sameDir : Bool      -- `out_path.resolve() == dir_path.resolve()` (alf.py:118)
